@@ -83,6 +83,9 @@ func NewListener(cfg *service.Listener, stats *DownstreamStats, logger log.Logge
 }
 
 func (l *listener) Serve() error {
+	// Stop waits for done, it must be closed on every return path.
+	defer close(l.done)
+
 	ip := l.cfg.GetAddress().GetIp()
 	port := l.cfg.GetAddress().GetPort()
 	address := fmt.Sprintf("%s:%d", ip, port)
@@ -122,7 +125,6 @@ func (l *listener) Serve() error {
 
 	l.connsWg.Wait()
 	l.Infof("all conns done")
-	close(l.done)
 	return nil
 }
 
